@@ -45,6 +45,16 @@ Theorem C20_acyclic_order_total : forall d fields,
   acyclic d -> filter (fun p => mem (fst p) fields) d <> [] -> exists gs, rand_order d fields = Some gs.
 Proof. exact rand_order_total. Qed.
 Print Assumptions C20_acyclic_order_total.
+(* chains: whatever is ordered transitively (a before b, b before c - all in the rand set) is separated as well, and a
+   declaration that orders a field before itself never yields groups *)
+Theorem C20_chain_separated : forall d fields gs a b,
+  NoDup fields -> rand_order d fields = Some gs -> reaches d fields a b ->
+  exists i j, group_index gs a 0 = Some i /\ group_index gs b 0 = Some j /\ (j < i)%nat.
+Proof. exact rand_order_chain. Qed.
+Print Assumptions C20_chain_separated.
+Theorem C20_cycle_no_order : forall d fields a, NoDup fields -> reaches d fields a a -> rand_order d fields = None.
+Proof. exact rand_order_cycle_none. Qed.
+Print Assumptions C20_cycle_no_order.
 
 Open Scope Z_scope.
 (* the first-solved field: when the drawn pattern is a feasible value v of its range, every slice is kept (it is consistent with
